@@ -154,7 +154,7 @@ def rule_insert_remove(ctx):
     fi = ctx.fn(RS + 'newaxis')
     NAME, POS = P_('name'), P_('pos')
     for minus1 in (False, True):
-        ev = run(ctx, fi, bind={'values': T.CONST_NONE}, facts={('cmp', '==', POS, const(-1)): minus1})
+        ev = run(ctx, fi, bind={'values': T.CONST_NONE}, facts={T.mkcmp('==', POS, const(-1)): minus1})
         for p in ret_paths(ev):
             v = p.value
             pos = ('call', ('name', 'len'), (('attr', SELF, 'dims'),), ()) if minus1 else POS
@@ -180,7 +180,7 @@ def rule_insert_remove(ctx):
                 ctx.violated('R4', fi, 'return', 'newaxis carries the metadata', node=p.node)
                 continue
             ctx.holds('R2', 'newaxis pos=%s' % ('-1 -> len(dims)' if minus1 else 'pos'))
-    ev = run(ctx, fi, facts={('cmp', 'is', P_('values'), T.CONST_NONE): False, ('cmp', '==', POS, const(-1)): False})
+    ev = run(ctx, fi, facts={T.mkcmp('is', P_('values'), T.CONST_NONE): False, T.mkcmp('==', POS, const(-1)): False})
     for p in ret_paths(ev):
         v = p.value
         if not (v[0] == 'call' and T.call_name(v) == 'repeat' and v[2][:1] == (P_('values'),) and T.kw(v, 'axis') == POS):
@@ -191,7 +191,7 @@ def rule_insert_remove(ctx):
     ev = run(ctx, fi)
     for p in ret_paths(ev):
         v = p.value
-        none = [pol for a, pol in p.guards if a == ('cmp', 'is', P_('axis'), T.CONST_NONE)]
+        none = [pol for a, pol in p.guards if a == T.mkcmp('is', P_('axis'), T.CONST_NONE)]
         if not is_cons(v):
             ctx.violated('R2', fi, 'return ' + T.show(v)[:100], 'squeeze must build self._constructor(values, axes, **self.attrs)', node=p.node)
             continue
@@ -201,13 +201,13 @@ def rule_insert_remove(ctx):
             continue
         el = axes[2]
         cond = axes[3][0][2][0]
-        size1 = ('cmp', '!=', ('attr', el, 'size'), const(1))
+        size1 = T.mkcmp('!=', ('attr', el, 'size'), const(1))
         if none == [True]:
             ok = vals == ('call', ('attr', vals[1][1], 'squeeze'), (), ()) and vals[1][1] in VAL and cond == size1
             why = 'axis=None removes all size-1 dimensions from values and axes'
         else:
             ok = vals[0] == 'call' and T.call_name(vals) == 'squeeze' and T.call_receiver(vals) in VAL and vals[2] == (('item', gai, 0),) \
-                and cond == ('boolop', 'or', (('cmp', '!=', ('attr', el, 'name'), ('item', gai, 1)), size1))
+                and cond == ('boolop', 'or', (T.mkcmp('!=', ('attr', el, 'name'), ('item', gai, 1)), size1))
             why = 'values.squeeze(idx) and the axis filter (name != resolved name or size != 1) must come from the same resolution; only size-1 axes are removed'
         if not ok or not attrs_ok(v):
             ctx.violated('R2', fi, 'return ' + T.show(v)[:160], why, node=p.node)
@@ -217,7 +217,7 @@ def rule_insert_remove(ctx):
     fi = ctx.fn(RS + 'repeat')
     VALUES = P_('values')
     ev = run(ctx, fi, oracle=lambda a, st: (False if (a[0] == 'cmp' and a[1] == 'is' and a[3] == ('name', 'int')) else
-                                           False if a == ('cmp', 'is', P_('axis'), T.CONST_NONE) else None))
+                                           False if a == T.mkcmp('is', P_('axis'), T.CONST_NONE) else None))
     idx, name = ('item', gai, 0), ('item', gai, 1)
     n = 0
     for p in ret_paths(ev):
@@ -281,7 +281,7 @@ def rule_broadcast(ctx):
             continue
         g_single = [pol for a, pol in e.guards if a[0] == 'cmp' and a[1] == '==' and a[3] == const(1) and a[2][0] == 'attr' and a[2][2] == 'size'
                     and a[2][1][0] == 'sub' and a[2][1][2] == ('attr', tgt, 'name')]
-        g_target = [pol for a, pol in e.guards if a == ('cmp', '==', ('attr', tgt, 'size'), const(1))]
+        g_target = [pol for a, pol in e.guards if a == T.mkcmp('==', ('attr', tgt, 'size'), const(1))]
         if g_single != [True] or g_target != [False]:
             ctx.violated('R3', fi, e.node, 'repeat exactly the axes that are singleton in the array (looked up by name) and not singleton in the target', node=e.node)
             continue
